@@ -516,6 +516,7 @@ func concBody(name string, setup []string, threads [][]string) func() {
 
 func main() {
 	h := hx.New("C19")
+	registerInterceptor(h)
 	h.Seq("model-bfs", func(s *hx.Seq) {
 		d := 3
 		if s.Thorough {
